@@ -398,13 +398,21 @@ func runC19(c *Ctx) {
 		const rule = "R2-eligibility"
 		ts := vParam("timestamp")
 		n := 0
+		alts := append([]FP{isZeroTime(ts, "timestamp.IsZero()")}, notAfter(vFieldLoad("SnapshotInfoV3.CreatedAt", nil), ts, "snapshot.CreatedAt not after timestamp")...)
 		for _, ret := range returns(fn) {
-			if len(ret.Results) == 0 || isNilConst(ret.Results[0]) {
+			if len(ret.Results) == 0 || isNilConst(retOperand(ret, 0)) || inRangeFuncResume(ret.Block()) {
 				continue
 			}
 			n++
-			alts := append([]FP{isZeroTime(ts, "timestamp.IsZero()")}, notAfter(vFieldLoad("SnapshotInfoV3.CreatedAt", nil), ts, "snapshot.CreatedAt not after timestamp")...)
 			c.requireAlts(rule, fn, Site{ret, "return &snapshots[i]"}, alts)
+		}
+		// `return &snapshots[i]` inside a range-over-func body
+		for _, st := range yieldResultStores(fn, 0) {
+			if isNilConst(st.Val) {
+				continue
+			}
+			n++
+			c.requireAlts(rule, fn, Site{st, "return &snapshots[i]"}, alts)
 		}
 		c.floor(rule, n, 2, "non-nil returns of findBestSnapshotV3")
 	}
@@ -420,6 +428,48 @@ func runC19(c *Ctx) {
 			c.requireGuard(rule, fn, Site{call, "result = append(result, seg)"}, cmpFact(vFieldLoad("WALSegmentInfoV3.Index", nil), token.GEQ, vParam("snapshotIndex"), "seg.Index >= snapshotIndex"))
 			alts := append([]FP{isZeroTime(ts, "timestamp.IsZero()")}, notAfter(vFieldLoad("WALSegmentInfoV3.CreatedAt", nil), ts, "seg.CreatedAt not after timestamp")...)
 			c.requireAlts(rule, fn, Site{call, "result = append(result, seg)"}, alts)
+		}
+		// the library form: slices.DeleteFunc(copy, pred) keeps exactly the elements for which pred is false
+		for _, call := range callsTo(fn, nameIs("slices.DeleteFunc")) {
+			a := call.Common().Args
+			mc, isMC := a[1].(*ssa.MakeClosure)
+			if !isMC {
+				continue
+			}
+			g := mc.Fn.(*ssa.Function)
+			n++
+			need := [][]FP{
+				{cmpFact(vFieldLoad("WALSegmentInfoV3.Index", nil), token.GEQ, vParam("snapshotIndex"), "seg.Index >= snapshotIndex")},
+				append([]FP{isZeroTime(ts, "timestamp.IsZero()")}, notAfter(vFieldLoad("WALSegmentInfoV3.CreatedAt", nil), ts, "seg.CreatedAt not after timestamp")...),
+			}
+			for _, alts := range need {
+				ok := true
+				for _, r := range returns(g) {
+					v := retOperand(r, 0)
+					if vConstBool(true)(v) && isConst(v) {
+						continue // element deleted
+					}
+					if isConst(v) {
+						gd, k := guardedBy(r, alts...)
+						ok = ok && k > 0 && gd
+						continue
+					}
+					if !valueEntails(v, false, alts, 0) {
+						gd, k := guardedBy(r, alts...)
+						ok = ok && k > 0 && gd
+					}
+				}
+				c.check(ok, rule, fnName(fn)+": a segment is kept (predicate false) only if ["+descs(alts)+"]", c.pos(call), "every false return of the delete predicate entails the fact", "a segment outside the eligible range can be kept")
+			}
+			// the filtered slice is what is returned, and the input is the (copied) segment list
+			src := a[0]
+			okSrc := vParam("segments")(src)
+			for _, o := range origins(src) {
+				if cl, isCl := o.(*ssa.Call); isCl && calleeName(cl) == "slices.Clone" && vParam("segments")(cl.Call.Args[0]) {
+					okSrc = true
+				}
+			}
+			c.check(okSrc, rule, fnName(fn)+": filters the given segment list", c.pos(call), "segments (or a clone)", "filter applied to another list")
 		}
 		c.floor(rule, n, 1, "appends in filterWALSegmentsV3")
 	}
